@@ -19,12 +19,18 @@ def periodic_systematic(closed=True, seed=0):
     axes with pairwise different end-cell ratios) as closed transport problems with divergence-free velocities"""
     import random as _r
     out = []
-    for base in opsdrive.periodic_systematic_configs(False, seed)[::3]:
+    for base in opsdrive.periodic_systematic_configs(False, seed):
         cls = base["cls"]
         pa = [a for a in range(drive.dim(cls)) if any(base["bc"][s]["periodic"] for s in SIDES[a])]
-        rng = _r.Random(hash((seed, cls, tuple(pa))) & 0xffffffff)
+        rng = _r.Random(hash((seed, cls, tuple(pa), str(base["bc"][SIDES[pa[0]][0]]["periodic"]), str(base["bc"][SIDES[pa[0]][1]]["periodic"]))) & 0xffffffff)
+        lo_, hi_ = SIDES[pa[0]]
+        flag = "both" if base["bc"][lo_]["periodic"] and base["bc"][hi_]["periodic"] else \
+            ("lo" if base["bc"][lo_]["periodic"] else "hi")
         cfg = gen(rng, cls, closed=closed, faces_override=[[dec(q) for q in f] for f in base["faces"]],
                   force_periodic=set(pa))
+        # the flag of the pair may sit on either side alone (the other side then carries its default a, b, c)
+        if flag != "both":
+            cfg["bc"][hi_ if flag == "lo" else lo_]["periodic"] = False
         cfg["systematic"] = "periodic"
         out.append(cfg)
     return out
